@@ -59,3 +59,10 @@ add("C18", "model_checking", "exhaustive visit of every distinct state of the ed
     "set_ncomp on the unpickled copy.",
     "Determinism of eager CPU execution; states limited to the C19 alphabet plus an SWC cell and a network with trainables/clamps/groups.",
     "DESIGN.md §7 C18")
+
+add("C10", "model_checking", "exhaustive enumeration of make_trainable call sequences (views x keys, depth 1-3) on real modules; arrays reaching the simulator compared with a reference selection semantics; set/data_set/trainable routes compared by simulation",
+    "Every (view, key) of a 12x6 table on two modules and all pairs (triples in thorough) of them are executed with the real make_trainable; the arrays produced by the real "
+    "init_fn are compared row by row with a documented-semantics reference (selection, NaN skipping, sharing rule, later-call-wins), rows outside the selection must be "
+    "bit-unchanged; single calls also compare set vs data_set vs trainable simulations and write_trainables.",
+    "Sharing rule per view kind taken from the documentation; two fixed modules; histories deeper than 3 not explored.",
+    "DESIGN.md §7 C10")
